@@ -232,6 +232,9 @@ type SchedCase struct {
 	// listener's next Accept fails with an error that is not net.ErrClosed (the
 	// listener broke: EMFILE, a timeout, a closed descriptor)
 	AcceptErr bool `json:"accept_err,omitempty"`
+	// ListenerCloseErr: closing the listener works but reports an error (a
+	// wrapping listener, a listener the application closed itself)
+	ListenerCloseErr bool `json:"listener_close_err,omitempty"`
 	// Listeners > 1: Serve is called once per listener on the same Server
 	Listeners int `json:"listeners,omitempty"`
 }
